@@ -17,8 +17,9 @@ type Scenario struct {
 	// ... or a stored session to resume
 	Resume *Resume `json:"resume,omitempty"`
 	// what to do after the connection is up
-	Probe bool     `json:"probe,omitempty"`
-	RPC   *RPCSpec `json:"rpc,omitempty"`
+	Probe   bool         `json:"probe,omitempty"`
+	RPC     *RPCSpec     `json:"rpc,omitempty"`
+	Methods *MethodsSpec `json:"methods,omitempty"`
 	// C19: seed the process-global math/rand right before connecting (after the client object exists)
 	ReseedGlobal *int64 `json:"reseed_global,omitempty"`
 	// scheduling
@@ -94,6 +95,7 @@ type Result struct {
 	Warnings      []string          `json:"warnings,omitempty"`
 	Hooks         []HookEvent       `json:"hooks,omitempty"`
 	Stall         *Stall            `json:"stall,omitempty"`
+	Methods       []MethodResult    `json:"methods,omitempty"`
 	Notes         []string          `json:"notes,omitempty"`
 	Addrs         map[string]string `json:"addrs,omitempty"`
 	Done          bool              `json:"done"`
